@@ -41,7 +41,8 @@ ASSUMPTIONS = [
 MUST_REACH = {"valid_out_delivered": 300, "valid_in_delivered": 300, "garbage_datagrams": 300, "templates_covered": 300,
               "discard_random": 20, "discard_truncated": 20, "discard_unknown_host": 10, "discard_unregistered_circuit": 10,
               "discard_banned": 5, "discard_bad_socks": 20, "discard_presession": 5, "reopened_circuits": 3, "closing_messages_checked": 3, "sessions_claimed_out_of_login_order": 2, "sequences_deferred_parsing": 5, "sequences_eager_parsing": 5,
-              "same_ip_sequences": 2, "multi_region_deliveries": 50}
+              "same_ip_sequences": 2, "multi_region_deliveries": 50,
+              "distinct_destinations_seen": 1200, "deliveries_after_many_destinations": 30}
 
 _es = Settings()
 _es.ENABLE_DEFERRED_PACKET_PARSING = False
@@ -488,7 +489,62 @@ def _msgclass(name):
     return name if name in ("ChatFromSimulator", "RegionHandshake", "AgentMovementComplete", "ObjectUpdate") else "other"
 
 
+def many_destinations(ctx, rng):
+    """A long session: through one association the viewer sends datagrams to well over a thousand different addresses that have
+    nothing to do with its session (discarded one by one).  Its own simulator stays its simulator: traffic in both directions
+    keeps being delivered exactly once all along."""
+    rig = Rig(settings=ProxySettings())
+    try:
+        sim, client = ("10.1.0.1", 13001), ("10.0.0.1", 40001)
+        sess = rig.add_session(sim)
+        a = rig.add_association(client)
+        exc = a.from_viewer(sim, use_circuit_code(sess, 1))
+        if exc is not None:
+            ctx.inconclusive_because(f"could not open the circuit: {exc!r}"[:200])
+            return
+        out_id, in_id = 2, 1
+        total = ctx.pick(1400, 5000)
+        for k in range(total):
+            far = (f"10.{50 + (k >> 16) % 100}.{(k >> 8) & 0xFF}.{k & 0xFF}", 20000 + k % 1000)
+            before = len(rig.sendlog)
+            exc = a.from_viewer(far, simple_msg("CloseCircuit", 7))
+            if len(rig.sendlog) != before:
+                ctx.violation("garbage-forwarded:unknown_host", "a datagram for an address without a circuit was forwarded",
+                              {"k": k, "far": far})
+                return
+            ctx.count("distinct_destinations_seen")
+            if k % 64 == 63 or k == total - 1:
+                for direction_in in (True, False):
+                    name = "AlertMessage" if direction_in else "AgentPause"
+                    from hippolyzer.lib.base.message.message import Message, Block
+                    from hippolyzer.lib.base.message.udpserializer import UDPMessageSerializer
+                    if direction_in:
+                        m = Message(name, Block("AlertData", Message=f"still here {k}"), packet_id=in_id, flags=0)
+                        in_id += 1
+                    else:
+                        m = Message(name, Block("AgentData", AgentID=sess.agent_id, SessionID=sess.id, SerialNum=k & 0xFFFF), packet_id=out_id,
+                                    flags=0)
+                        out_id += 1
+                    data = bytes(UDPMessageSerializer().serialize(m))
+                    before = len(rig.sendlog)
+                    exc = a.from_sim(sim, data) if direction_in else a.from_viewer(sim, data)
+                    new = rig.sendlog[before:]
+                    ctx.ev()
+                    if exc is not None or len(new) != 1:
+                        ctx.violation(("in:" if direction_in else "out:") + "not-forwarded:after-many-destinations",
+                                      "after the association had sent to many unrelated addresses, a valid datagram on the open "
+                                      "circuit was not forwarded exactly once", {"destinations_so_far": k + 1, "exc": repr(exc)[:200],
+                                                                                  "sends": len(new)})
+                        return
+                    ctx.count("deliveries_after_many_destinations")
+        ctx.nontrivial(("many-destinations", total))
+    finally:
+        rig.close()
+
+
 def run(ctx):
+    if ctx.shard == 1 % max(ctx.nshards, 1):
+        many_destinations(ctx, ctx.rng)
     n = ctx.pick(10, 600)
     for i in range(n):
         if ctx.out_of_time():
